@@ -226,11 +226,15 @@ def make_dense(rng, n, m, grid, rough):
 def api_fit(kind, method, data, s):
     from FDApy.preprocessing.dim_reduction.ufpca import UFPCA
     from FDApy.preprocessing.dim_reduction.mfpca import MFPCA
+    from FDApy.representation.functional_data import IrregularFunctionalData
     with warnings.catch_warnings():
         warnings.simplefilter("ignore")
         if kind == "UFPCA":
             f = UFPCA(n_components=s, method=method)
-            f.fit(data, method_smoothing=None)
+            if isinstance(data, IrregularFunctionalData):
+                f.fit(data, method_smoothing="LP", kwargs_mean={"bandwidth": 0.4}, kwargs_covariance={"bandwidth": 0.4})
+            else:
+                f.fit(data, method_smoothing=None)
             ef = np.asarray(f.eigenfunctions.values)
             return np.asarray(f.eigenvalues, dtype=float), ef.reshape(ef.shape[0], -1)
         f = MFPCA(n_components=s, method=method,
@@ -278,7 +282,15 @@ def api_level(rep, rng, quick):
         grid = ["uniform", "nonuniform", "doy"][i % 3]
         rough = (i % 2 == 0)
         kind = "UFPCA" if i % 4 != 3 else "MFPCA"
-        if kind == "UFPCA":
+        if kind == "UFPCA" and i == 1:
+            dd = make_dense(rng, n, max(m, 8), "uniform", rough)
+            tt = np.asarray(dd.argvals["input_dim_0"]); XX = np.asarray(dd.values)
+            mk = rng.uniform(size=XX.shape) < 0.85
+            mk[:, [0, -1]] = True
+            from harness import fd as _fd
+            data = _fd.irregular([tt[mk[k]] for k in range(n)], [XX[k][mk[k]] for k in range(n)])
+            grid = "irregular"
+        elif kind == "UFPCA":
             data = make_dense(rng, n, m, grid, rough)
         else:
             data = MultivariateFunctionalData([make_dense(rng, n, m, grid, rough),
@@ -294,7 +306,7 @@ def api_level(rep, rng, quick):
                 good = np.isfinite(full_fun).all(axis=1) & np.isfinite(full_val)
             else:
                 good = np.ones(len(full_val), dtype=bool)
-            if kind == "UFPCA" and method == "covariance":
+            if kind == "UFPCA" and method == "covariance" and grid != "irregular":
                 pairing_monitor(rep, data, full_val, full_fun, None, grid)
             rank = int(np.sum(full_val > 1e-10 * max(1e-300, full_val.max())))
             sels = [1, 2, max(1, min(rank, 3)), 0.6, 0.9, 0.99]
@@ -311,7 +323,7 @@ def api_level(rep, rng, quick):
                                    "values": C.hexf(np.asarray(data.values if kind == 'UFPCA' else data.data[0].values))})
                     continue
                 k = len(val)
-                if kind == "UFPCA" and method == "covariance":
+                if kind == "UFPCA" and method == "covariance" and grid != "irregular":
                     pairing_monitor(rep, data, val, fun, s, grid)
                 if k > len(full_val) or not good[:max(k, 1)].all() or not good.all():
                     # NaN eigenfunctions (division by sqrt(0)) are a C02/C03 matter; compare values only
@@ -353,7 +365,7 @@ def api_level(rep, rng, quick):
         if res[t_def]:
             rep.known_finding(F1, F1_WHAT, sample)
             continue
-        vals = data.values if kind == "UFPCA" else [c.values for c in data.data]
+        vals = (np.zeros(1) if grid == "irregular" else data.values) if kind == "UFPCA" else [c.values for c in data.data]
         rep.violation(f"{kind}({method}) n_components={s}: not the leading components of its own full fit"
                       + ("; " + "; ".join(mon) if mon else ""),
                       {**sample, "agrees_correct_model": res[t_ok], "agrees_defect_model": res[t_def],
